@@ -59,9 +59,9 @@ func VH_c12_gr_cycle() {
 
 	// the loss
 	graceful := vBool("graceful_loss")
-	reason := fsmNotificationRecv
-	if graceful {
-		reason = fsmGracefulRestart
+	reason := fsmGracefulRestart
+	if !graceful {
+		reason = []fsmStateReasonType{fsmNotificationRecv, fsmHardReset, fsmAdminDown, fsmHoldTimerExpired, fsmReadFailed}[vChoice("loss_kind", 5)]
 	}
 	vTransition(s, p, bgp.BGP_FSM_IDLE, reason)
 	loc = s.globalRib.GetPathList(table.GLOBAL_RIB_NAME, 0, fams)
